@@ -85,6 +85,8 @@ def one(ctx, impl, traces, tag, cfg):
                  replay=dict(cfg=cfg, tb=traceback.format_exc()))
         return None
     bad = impl.judge(r)
+    if not bad and tag == "full":
+        bad = impl.judge_full(cfg["calls"], r)
     if bad:
         ctx.fail("oracle/" + bad[0], "%s; scenario %r" % (bad[1], cfg), replay=dict(cfg=cfg, fires=r["fires"], waiting=r["waiting"]))
     if r["errors"]:
@@ -225,10 +227,19 @@ def api_sequences(ctx, impl, traces):
             continue
         if r["errors"]:
             ctx.fail("harness/recorder", "recorder inconsistency: %r on %r" % (r["errors"][:3], ops), replay=dict(ops=ops), has_input=False)
-        for h, f in enumerate(r["fires"]):
-            if len(f) > 1:
-                ctx.fail("oracle/api-fired-twice", "request #%d fired %d times under op sequence %r" % (h, len(f), ops),
-                         replay=dict(ops=ops, fires=r["fires"]))
+        if any(len(f) > 1 for f in r["fires"]) and not any(x["sig"] == "oracle/api-fired-twice" for x in ctx.failures):
+            def twice(cand):
+                try:
+                    with impl.quiet():
+                        rr = impl.api_sequence(cand)
+                    return any(len(f) > 1 for f in rr["fires"])
+                except Exception:
+                    return False
+            small = common.shrink_list(ops, twice)
+            with impl.quiet():
+                rs = impl.api_sequence(small)
+            ctx.fail("oracle/api-fired-twice", "a Deferred was fired more than once (fire counts per call %r) under the op sequence %r"
+                     % ([len(f) for f in rs["fires"]], small), replay=dict(ops=small, fires=rs["fires"], unshrunk=ops))
         ctx.case(["api", ops], nontrivial=any(r["fires"]))
         ctx.hist("api_len", len(ops) // 5 * 5)
         if r["raised"]:
